@@ -533,11 +533,13 @@ func checkArgs(c Cell, args []string, ob *observed) *mon.Result {
 		}
 		return nil
 	}
-	if r := one("-p", strconv.Itoa(c.port())); r != nil {
-		return r
-	}
-	if r := one("-l", u.name); r != nil {
-		return r
+	if w.sshAt == "" { // shape check only when the real client's resolver (ssh -G, see resolveCheck) is unavailable
+		if r := one("-p", strconv.Itoa(c.port())); r != nil {
+			return r
+		}
+		if r := one("-l", u.name); r != nil {
+			return r
+		}
 	}
 	wantF := "/dev/null"
 	if p := c.cfgPath(); p != "" {
